@@ -14,6 +14,7 @@ import numpy as np
 import pulser
 from pulser import Pulse, Register, Register3D, Sequence
 from pulser.channels import DMM, Microwave, Raman, Rydberg
+from pulser.channels.eom import RydbergBeam, RydbergEOM
 from pulser.devices import VirtualDevice
 from pulser.sampler import sample
 from pulser.sequence._schedule import _DMMSchedule
@@ -33,8 +34,22 @@ TOL = 1e-9
 def build_device(case):
     bw = case.get("bw")
     kw = dict(clock_period=1, min_duration=1, max_duration=10**7, mod_bandwidth=bw)
+    kw_g = dict(kw)
+    eom = case.get("eom")
+    if eom:
+        # EOM needs a modulation bandwidth on the channel itself
+        kw_g["mod_bandwidth"] = bw if bw is not None else 40.0
+        beams = {"RED": RydbergBeam.RED, "BLUE": RydbergBeam.BLUE}
+        kw_g["eom_config"] = RydbergEOM(
+            mod_bandwidth=float(eom.get("bw", 40.0)),
+            limiting_beam=beams[eom.get("limiting", "RED")],
+            max_limiting_amp=30 * 2 * math.pi,
+            intermediate_detuning=float(eom.get("delta", 700 * 2 * math.pi)),
+            controlled_beams=tuple(beams[b] for b in eom.get("controlled", ["BLUE"])),
+            custom_buffer_time=eom.get("buffer"),
+        )
     chans = (
-        Rydberg.Global(None, None, **kw),
+        Rydberg.Global(None, None, **kw_g),
         Rydberg.Local(None, None, max_targets=None, **kw),
         Raman.Global(None, None, **kw),
         Raman.Local(None, None, max_targets=None, **kw),
@@ -115,6 +130,17 @@ def build_sequence(case, dev):
                 seq.phase_shift(float(op["phi"]), *op["q"], basis=op["basis"])
             elif k == "align":
                 seq.align(*op["chs"])
+            elif k == "enable_eom":
+                seq.enable_eom_mode(op["ch"], amp_on=float(op["amp_on"]), detuning_on=float(op["det_on"]),
+                                    optimal_detuning_off=float(op.get("opt_off", 0.0)),
+                                    correct_phase_drift=bool(op.get("correct", False)))
+            elif k == "add_eom":
+                seq.add_eom_pulse(op["ch"], duration=int(op["dur"]), phase=float(op["phase"]),
+                                  post_phase_shift=float(op.get("post", 0.0)),
+                                  protocol=PROTO[op.get("protocol", 0)],
+                                  correct_phase_drift=bool(op.get("correct", False)))
+            elif k == "disable_eom":
+                seq.disable_eom_mode(op["ch"], correct_phase_drift=bool(op.get("correct", False)))
             else:
                 raise ValueError(k)
         except Exception:  # noqa: BLE001
@@ -159,9 +185,14 @@ def programmed(seq):
                      np.asarray(p.detuning.samples.as_array(detach=True), dtype=float),
                      float(p.phase), is_delay)
                 )
+        # a channel left in EOM mode keeps the detuning at the open block's
+        # detuning_off after its last instruction (read from the schedule)
+        tail = None
+        if sch.eom_blocks and sch.eom_blocks[-1].tf is None:
+            tail = (int(sch[-1].tf), float(sch.eom_blocks[-1].detuning_off))
         out[name] = dict(
             basis=ch.basis, glob=ch.addressing == "Global",
-            dmm=isinstance(sch, _DMMSchedule), slots=slots,
+            dmm=isinstance(sch, _DMMSchedule), slots=slots, tail=tail,
         )
     return out
 
@@ -185,6 +216,8 @@ def doc_states(case, prog):
     used = set()
     for c in prog.values():
         if any(np.any(s[3] != 0) or np.any(s[4] != 0) for s in c["slots"]):
+            used.add(c["basis"])
+        if c.get("tail") and c["tail"][1] != 0 and c["glob"]:
             used.add(c["basis"])
     if not used:
         st = set(BASIS_STATES["XY" if case["xy"] else "ground-rydberg"])
@@ -255,6 +288,9 @@ def doc_hamiltonian(case, prog, states, ids, coords, t, c6, c3, mag, mask, mask_
                     continue  # masked atoms do not see pulses while the mask is on
                 w = weights[name][q] if c["dmm"] else 1.0
                 contribs.append((name, c, q, om, de * w, phase))
+        if c.get("tail") and c["glob"] and not c["dmm"] and t >= c["tail"][0]:
+            for q in ids:
+                contribs.append((name, c, q, 0.0, c["tail"][1], 0.0))
     if "phase-sum" in variant:
         raise RuntimeError("use doc_variant_phase_sum")
     for (name, c, q, om, de, phase) in contribs:
@@ -369,7 +405,7 @@ def hamming_kinds(D, n, d, tol):
 
 
 # ------------------------------------------------------------------ probes
-def resolve_probes(case, m, times_ns, mask_end, edges):
+def resolve_probes(case, m, times_ns, mask_end, edges, ch_ends=()):
     ks = []
     for pr in case["probes"]:
         kind = pr[0]
@@ -384,6 +420,13 @@ def resolve_probes(case, m, times_ns, mask_end, edges):
             if not edges:
                 continue
             target = edges[pr[1] % len(edges)] + pr[2]
+            k = int(np.argmin(np.abs(np.asarray(times_ns) - target)))
+        elif kind == "tail":
+            # between the end of the shortest channel and the end of the sequence
+            if not ch_ends:
+                continue
+            lo, hi = min(ch_ends), times_ns[-1]
+            target = lo + pr[1] * (hi - lo)
             k = int(np.argmin(np.abs(np.asarray(times_ns) - target)))
         else:
             raise ValueError(kind)
@@ -495,6 +538,7 @@ def run_case(case, Violation):
                 dur=int(len(amp)),
                 slots=[(int(s.ti), int(s.tf), sorted(ids.index(q) for q in s.targets)) for s in cs.slots],
                 w=w,
+                eom=[(None if b.tf is None else int(b.tf), float(b.detuning_off)) for b in cs.eom_blocks],
                 last=(math.cos(ph[-1]), math.sin(ph[-1])) if len(ph) else (1.0, 0.0),
                 amp=amp, det=det, ph=ph,
             ))
@@ -542,7 +586,8 @@ def run_case(case, Violation):
             if c["dmm"]:
                 weights[name] = weights_of(case, name, ids, slm_name)
         edges = sorted({x for c in prog.values() for s in c["slots"] for x in (s[0], s[1])})
-        ks = resolve_probes(case, len(times_ns), times_ns, o_mask_end or impl_mask_end, edges)
+        ch_ends = [int(sch[-1].tf) for sch in seq._schedule.values()]
+        ks = resolve_probes(case, len(times_ns), times_ns, o_mask_end or impl_mask_end, edges, ch_ends)
         samp_ext = emu.samples_obj
         c6, c3 = run["c6"], run["c3"]
 
